@@ -8,7 +8,7 @@ OP_TEXT = {"and": "AND", "or": "OR", "xor": "XOR", "lt": "<", "gt": ">", "eq": "
            "ieq": ":=:", "ine": ":<>:", "in": "IN", "like": "LIKE", "concat": "||", "exp": "**", "times": "*",
            "div": "DIV", "rdiv": "/", "mod": "MOD", "plus": "+", "minus": "-"}
 TEXT_OP = {v: k for k, v in OP_TEXT.items()}
-LIT_KW = ["TRUE", "FALSE", "UNKNOWN", "PI", "E", "SELF", "QUERY"]
+LIT_KW = ["TRUE", "FALSE", "UNKNOWN", "PI", "CONST_E", "SELF", "QUERY"]   # lexact.c: the constant e is spelt CONST_E
 STRUCT_KW = {"SCHEMA", "END_SCHEMA", "ENTITY", "END_ENTITY", "TYPE", "END_TYPE", "CONSTANT", "END_CONSTANT", "DERIVE",
              "WHERE", "OF", "OPTIONAL", "UNIQUE", "INTEGER", "REAL", "STRING", "BINARY", "BOOLEAN", "LOGICAL", "NUMBER",
              "LIST", "SET", "BAG", "ARRAY", "NOT", "SUBTYPE", "SUPERTYPE", "ABSTRACT", "INVERSE", "FOR", "FUNCTION",
@@ -473,7 +473,7 @@ class Gen:
         if k == 5: self.hit("lit:encoded-string"); return ("estr", r.choice(["00000041", "0000004100000042", ""]))
         if k == 6: self.hit("lit:binary"); return ("bin", r.choice(["0", "1", "1010", "11110000"]))
         if k == 7: self.hit("lit:logical"); return ("kw", r.choice(["TRUE", "FALSE", "UNKNOWN"]))
-        if k == 8: self.hit("lit:constant"); return ("kw", "PI")
+        if k == 8: self.hit("lit:constant"); return ("kw", r.choice(["PI", "CONST_E"]))
         if k == 9: self.hit("lit:int"); return ("int", r.randint(2, 500))
         return ("int", r.choice([0, 1, 2]))
 
